@@ -91,6 +91,7 @@ pub const REQUIRED: &[&str] = &[
     "malformed: bit flip",
     "value: empty container",
     "value: container of length >= 255",
+    "value: sequence longer than 65536 bytes / 8192 words (beyond the pre-allocation cap)",
     "value: nesting depth >= 4",
     "value: multi-byte UTF-8",
     "value: VecDeque with a wrapped ring buffer (as_slices().1 non-empty)",
@@ -113,6 +114,7 @@ pub fn items(args: &Args) -> Vec<Item> {
             run(idx, rep, rng, args)
         }));
     }
+    v.push(Item::new("large-sequences", |rep, rng, args| large_sequences(rep, rng, args)));
     v.push(Item::new("serialize-only", |rep, rng, args| serialize_only(rep, rng, args)));
     v.push(Item::new("wrapper-validation", |rep, rng, args| wrapper_validation(rep, rng, args)));
     v
@@ -327,6 +329,65 @@ fn run_type<T: Tv>(idx: usize, rep: &mut Report, rng: &mut Rng, args: &Args) {
         }
     }
     run_pending(rep, &tname, pend);
+}
+
+/// Sequences longer than any internal pre-allocation bound (the deserializers cap their initial capacity at
+/// 64 KiB worth of elements): the length prefix, not the cap, decides how many elements are read.
+fn large_sequences(rep: &mut Report, rng: &mut Rng, _args: &Args) {
+    fn rt<T: CanonicalSerialize + CanonicalDeserialize + PartialEq>(rep: &mut Report, name: &str, len: usize, val: &T) {
+        for c in [Compress::Yes, Compress::No] {
+            let det = || json!({"type": name, "elements": len, "mode": cname(c)});
+            let mut buf: Vec<u8> = vec![];
+            let size = crate::api::size(val, c);
+            let Some(r) = rep.total(&format!("ser/container/{name}/serialize"), det, || crate::api::ser(val, &mut buf, c)) else { continue };
+            rep.eval(digest(&("large", name, len, c == Compress::Yes)), true);
+            rep.class("value: sequence longer than 65536 bytes / 8192 words (beyond the pre-allocation cap)");
+            if r.is_err() || size != buf.len() {
+                rep.violation(format!("ser/container/{name}/size"), json!({"type": name, "elements": len, "serialized_size": size, "bytes_written": buf.len()}));
+                continue;
+            }
+            for v in [Validate::Yes, Validate::No] {
+                let mut rd = &buf[..];
+                match rep.total(&format!("ser/container/{name}/deserialize"), det, || crate::api::de::<T, _>(&mut rd, c, v)) {
+                    Some(Ok(back)) => {
+                        if back != *val {
+                            rep.violation(format!("ser/container/{name}/round-trip"), json!({"type": name, "elements": len, "mode": cname(c), "validate": vname(v), "note": "a long sequence came back different (truncated?)"}));
+                        } else if !rd.is_empty() {
+                            rep.violation(format!("ser/container/{name}/round-trip-consumed"), json!({"type": name, "elements": len, "left_unread": rd.len()}));
+                        }
+                    },
+                    Some(Err(e)) => rep.violation(format!("ser/container/{name}/round-trip/rejected"), json!({"type": name, "elements": len, "error": format!("{e:?}")})),
+                    None => {},
+                }
+            }
+        }
+    }
+    for len in [65_535usize, 65_536, 65_537, 70_001] {
+        let v: Vec<u8> = (0..len).map(|_| rng.next_u32() as u8).collect();
+        rt(rep, "Vec", len, &v);
+        rt(rep, "VecDeque", len, &v.iter().copied().collect::<VecDeque<u8>>());
+        rt(rep, "LinkedList", len, &v.iter().copied().collect::<LinkedList<u8>>());
+        let s: String = (0..len).map(|i| (b'a' + (i % 26) as u8) as char).collect();
+        rt(rep, "String", len, &s);
+        let mut bytes = v.clone();
+        *bytes.last_mut().unwrap() |= 1;
+        rt(rep, "BigUint", len, &BigUint::from_bytes_le(&bytes));
+    }
+    for len in [8191usize, 8192, 8193, 10_007] {
+        let v: Vec<u64> = (0..len).map(|_| rng.next_u64()).collect();
+        rt(rep, "Vec", len, &v);
+        rt(rep, "VecDeque", len, &v.iter().copied().collect::<VecDeque<u64>>());
+        rt(rep, "BTreeSet", len, &v.iter().copied().collect::<BTreeSet<u64>>());
+        rt(rep, "BTreeMap", len, &v.iter().map(|x| (*x, *x as u8)).collect::<BTreeMap<u64, u8>>());
+    }
+    for len in [2047usize, 2048, 2049, 3001] {
+        let v: Vec<[u8; 32]> = (0..len).map(|_| core::array::from_fn(|_| rng.next_u32() as u8)).collect();
+        rt(rep, "Vec", len, &v);
+        let w: Vec<(u64, u64, u64, u64)> = (0..len).map(|_| (rng.next_u64(), rng.next_u64(), rng.next_u64(), rng.next_u64())).collect();
+        rt(rep, "Vec", len, &w);
+    }
+    let z: Vec<()> = vec![(); 100_003];
+    rt(rep, "Vec", z.len(), &z);
 }
 
 fn trunc(s: String) -> String {
